@@ -423,6 +423,21 @@ def reset_premise(F, rep, rid="L1", structs=WINDOWED):
         rules_c04.apply(F, m)
     except (symex.Unsupported, KeyError, IndexError, TypeError, AttributeError) as e:
         Sink.bad(m, rid, "unrecognised", "reset", "UNRECOGNISED idiom while checking that reset() restores the constructor state: %r" % (e,))
+    # ... and the state a call sees is the one the previous next()/reset() left: no other method may write it
+    import typestate
+    tss = typestate.all_structs(F)[0]
+    for s in structs:
+        ts = tss.get(s)
+        if ts is None:
+            continue
+        for lab, (fn, r) in sorted(ts.methods.items()):
+            if fn.trait_short in ("Next", "Reset"):
+                continue
+            wr = sorted(k for k in r["heap"] if k.startswith("self"))
+            if wr:
+                rep.violation("%s:extra-writer:%s" % (rep.prop, lab), rid,
+                              "%s writes %s: the window / running state is no longer what the last next() left, so the statement about the outputs since construction or reset does not follow" % (lab, ", ".join(wr[:4])),
+                              where=getattr(fn, "where", None))
 
 
 def run(tier, repo=None, tag="repo"):
